@@ -68,6 +68,34 @@ pub fn check(ops: &[Op], initial: u32) -> Option<String> {
     Some(d)
 }
 
+/// Regular-register check — exactly what C15 / C02 state: every read returns
+/// the value of a write that does not strictly follow it and that is not
+/// overwritten by another write lying entirely between that write and the
+/// read ("old or new while a swap is in flight, only the new one after it
+/// returned"). Returns a description of the first offending read.
+pub fn check_regular(ops: &[Op], initial: u32) -> Option<String> {
+    let writes: Vec<(u32, u64, u64)> = std::iter::once((initial, 0u64, 0u64))
+        .chain(ops.iter().filter_map(|o| if let Kind::Write(v) = &o.kind { Some((*v, o.invoke, o.ret)) } else { None }))
+        .collect();
+    for r in ops {
+        if let Kind::Read(acc) = &r.kind {
+            let ok = writes.iter().any(|(v, winv, wret)| {
+                acc.contains(v)
+                    && *winv < r.ret
+                    && !writes.iter().any(|(_, i2, r2)| *i2 > *wret && *r2 < r.invoke)
+            });
+            if !ok {
+                let mut d = format!("read {} [{}..{}] cannot be explained by the configuration before it or by a swap in flight; writes:", r.label, r.invoke, r.ret);
+                for (v, i, e) in &writes {
+                    d.push_str(&format!(" v{}[{}..{}]", v, i, e));
+                }
+                return Some(d);
+            }
+        }
+    }
+    None
+}
+
 #[cfg(test)]
 mod t {
     use super::*;
@@ -85,5 +113,13 @@ mod t {
         assert!(check(&[w(1, 1, 5), r(&[1], 2, 3), r(&[0], 4, 6)], 0).is_some());
         // nested write inside a read
         assert!(check(&[r(&[0], 1, 6), w(1, 2, 3), r(&[1], 7, 8)], 0).is_none());
+        // regular but not linearizable: new then old while the write is in flight
+        let h = [w(1, 1, 10), r(&[1], 2, 3), r(&[0], 4, 5)];
+        assert!(check(&h, 0).is_some());
+        assert!(check_regular(&h, 0).is_none());
+        // stale read after the write returned
+        assert!(check_regular(&[w(1, 1, 2), r(&[0], 3, 4)], 0).is_some());
+        // overwritten value
+        assert!(check_regular(&[w(1, 1, 2), w(2, 3, 4), r(&[1], 5, 6)], 0).is_some());
     }
 }
